@@ -1,4 +1,5 @@
 import ZenoModel.Driver.Codec
+import ZenoModel.Model.SubMerge
 
 namespace Zeno.Drv
 open Lean
@@ -47,6 +48,25 @@ def seqEngine (j : Json) : R Json := do
       let s ← parseSq (← obj j "seq")
       let t ← time j "t"
       pure (Json.mkObj [("val", optRatJson (Sq.valueAtTime dummyExt s e res t))])
+  | "submerge" =>
+      -- one output column of bytetree.node.doUpdate (params == nil branch)
+      let e ← parseEx (← obj j "e")
+      let inExs ← (← arr j "inExs").toList.mapM parseEx
+      let ins ← (← arr j "ins").toList.mapM parseSq
+      let out ← parseSq (← obj j "out")
+      let res ← int j "res"
+      let otherRes ← int j "otherRes"
+      let asOf ← time j "asof"
+      let hi ← time j "until"
+      let stride ← int j "stride"
+      let p ← parsePt (← obj j "pt")
+      let sms := e.subMergers inExs
+      let step := fun (acc : Sq) (x : (Option SM × Ex) × Sq) =>
+        match x.1.1 with
+        | none => acc
+        | some sm => Sq.subMerge e x.1.2 sm res otherRes acc x.2 p asOf hi stride
+      let r := ((sms.zip inExs).zip ins).foldl step out
+      pure (Json.mkObj [("seq", sqJson r), ("used", Json.arr (sms.map (fun o => Json.bool o.isSome)).toArray)])
   | "round" =>
       let t ← time j "t"
       let res ← int j "res"
